@@ -67,6 +67,10 @@ def gen_cases(rng, tier, keys, triples):
                 a = rng.loguniform(0.3, 5); A = rng.uniform(0.3, 3)
                 add("e", N, i, j, nraw, rng.loguniform(0.3, 5), a, a, A, A)
                 add("e", N, i, j, nraw, rng.loguniform(0.3, 5), a, a * (1 + 1e-9), A, A)
+                # nearly symmetric pairs, 0 < |P2| = |bB - aA|/p from 1e-10 to 3e-3: on both sides of the library's |P2| < 1e-7 guard
+                a = rng.loguniform(0.3, 5); A = rng.uniform(0.5, 2.5)
+                for dt in (rng.loguniform(1e-9, 1e-6), rng.loguniform(1e-6, 1e-2)):
+                    add("n", N, i, j, nraw, rng.loguniform(0.3, 5), a, a * (1 + dt), A, A)
                 # small aA / bB
                 add("m", N, i, j, nraw, rng.loguniform(0.3, 5), rng.loguniform(0.3, 5), rng.loguniform(0.3, 5), rng.loguniform(1e-6, 1e-2), rng.uniform(0.3, 3))
                 # the property's full ranges
@@ -150,7 +154,7 @@ def run(tier, replay=None):
             raise RuntimeError("model driver failed: " + out[-2000:])
         by = {c.split()[0]: c for c in cs}
         nconc = 0; viol = []; paths = {"closed": 0, "quadrature_or_screened": 0}
-        kn = {"F-C12-tailcut": [], "F-C12-screen": [], "F-C12-closedform": [], "F-C15-premature": []}
+        kn = {"F-C12-tailcut": [], "F-C12-screen": [], "F-C12-closedform": [], "F-C12-p2guard": [], "F-C15-premature": []}
         active = set(k.get("id") for k in load_known() if k.get("status") == "known")
         for l in out.splitlines():
             if not l.startswith("R "):
@@ -173,6 +177,12 @@ def run(tier, replay=None):
                 # (the forced quadrature may itself stop early on an estimate below its own tolerance: F-C15-premature)
                 if min(x_, y_) < 1.0 and (good("v_quad") or abs(fl("v_quad")) <= 16e-12):
                     cause = "F-C12-closedform"
+                else:
+                    # the |P2| < 1e-7 guard of the base integrals drops the P2-dependent terms although P2 is not zero
+                    cz, ca_, cb_ = [float.fromhex(w) for w in by[cid].split()[5:8]]
+                    P2 = abs(y_ - x_) / (cz + ca_ + cb_)
+                    if 0.0 < P2 < 1e-7 and good("v_quad"):
+                        cause = "F-C12-p2guard"
             else:
                 if good("v_notail"):
                     cause = "F-C12-tailcut"
